@@ -23,7 +23,9 @@ from harness.common import hexs
 
 # command texts; some carry characters that mean something to str.format / % formatting
 SUBMIT_TEXTS = ['GETINFO version', 'GETCONF SocksPort', 'SIGNAL NEWNYM', 'X', 'GETINFO ns/all', 'SETCONF a=b',
-                'SETCONF ExitNodes={us},{de}', 'SETCONF x={}', 'SETCONF Nickname=%s', 'GETINFO {0}%d']
+                'SETCONF ExitNodes={us},{de}', 'SETCONF x={}', 'SETCONF Nickname=%s', 'GETINFO {0}%d',
+                # a command handed over as bytes with UTF-8 text in it (one latin-1 character per byte here)
+                'SETCONF ContactInfo="Jos\xc3\xa9 <j@example.org>"']
 EVENT_NAMES = ['CIRC', 'STREAM', 'CONF_CHANGED', 'FOO', 'HS_DESC']
 TEXT_ALPHA = list('a 250-+.=OK"') + ['6', 'x', "'", ',', ':']
 
@@ -225,6 +227,8 @@ class Impl:
 
     def submit(self, op):
         _, cid, text, hascb = op
+        if any(ord(ch) > 127 for ch in text):
+            text = text.encode('latin-1')         # submitted as bytes (str commands must be ASCII)
         if hascb:
             d = self.proto.queue_command(text, lambda line, cid=cid: self.log.append('cb %d %s' % (cid, hexs(line))))
         else:
